@@ -45,6 +45,24 @@ pub open spec fn must_match(r: &WordView, q: &WordView) -> bool { prefix_case(r,
 pub open spec fn must_pair(rtext: &TextRef, qtext: &TextRef, j: int) -> bool {
     0 <= j < rtext.words@.len() && qtext.words@.len() >= 1 && forall|rv: WordView, qv: WordView| view_of(&rv, rtext, j) && view_of(&qv, qtext, 0) ==> #[trigger] must_match(&rv, &qv)
 }
+// ---- TM-fin / TM-first (C13, queries of several words).  TM-fin: a record-side slot holds an unfinished match only when some
+// query-side slot of an unfinished query word is filled (a match is unfinished only if its query word is: wm_fin, join, split).
+pub open spec fn unfin_slot(qm: Seq<Option<WordMatch>>, qtext: &TextRef) -> bool {
+    exists|k: int| 0 <= k < qm.len() && k < qtext.words@.len() && #[trigger] qm[k] is Some && !qtext.words@[k].fin
+}
+pub open spec fn unfin_at(s: Seq<Option<WordMatch>>, j: int) -> bool { 0 <= j < s.len() && s[j] is Some && !s[j]->0.fin }
+pub open spec fn fin_inv(rm: Seq<Option<WordMatch>>, qm: Seq<Option<WordMatch>>, qtext: &TextRef) -> bool {
+    forall|j: int| #[trigger] unfin_at(rm, j) ==> unfin_slot(qm, qtext)
+}
+// the pending candidate is for the current query word, and is unfinished only if that word is
+pub open spec fn cand_fin(c: Option<(WordMatch, WordMatch)>, qword: &WordView) -> bool { c matches Some(p) ==> p.1.offset == qword.offset && (p.0.fin || !qword.fin) }
+proof fn lemma_fin_keep(rm: Seq<Option<WordMatch>>, qm: Seq<Option<WordMatch>>, qm2: Seq<Option<WordMatch>>, qtext: &TextRef)
+    requires mono_slots(qm, qm2), unfin_slot(qm, qtext),
+    ensures unfin_slot(qm2, qtext),
+{
+    let k = choose|k: int| 0 <= k < qm.len() && k < qtext.words@.len() && #[trigger] qm[k] is Some && !qtext.words@[k].fin;
+    assert(qm2[k] is Some);
+}
 pub open spec fn some_slot(s: Seq<Option<WordMatch>>) -> bool { exists|k: int| 0 <= k < s.len() && #[trigger] s[k] is Some }
 pub open spec fn mono_slots(a: Seq<Option<WordMatch>>, b: Seq<Option<WordMatch>>) -> bool { a.len() == b.len() && forall|k: int| 0 <= k < a.len() && #[trigger] a[k] is Some ==> b[k] is Some }
 // the text-level cases of common/tm_contract.rs are instances
@@ -101,6 +119,10 @@ pub fn text_match(rtext: &TextRef, qtext: &TextRef, tls: &mut Tls, tlsm: &mut Tl
         // TM-some (C03 C04 C13): a record word that the first query word must match gives the record at least one match
         (exists|j: int| #[trigger] must_pair(rtext, qtext, j)) ==> ret.0@.len() >= 1, // [C03 C04 C13]
         tm_some(rtext, qtext, ret), // [C03 C04 C13]
+        // TM-first: ... and the first query word itself is matched;  TM-fin: an unfinished record-side match comes with a match of an unfinished query word
+        (exists|j: int| #[trigger] must_pair(rtext, qtext, j)) ==> first_matched(ret.1@), // [C13]
+        tm_first(rtext, qtext, ret), // [C13]
+        tm_fin(qtext, ret), // [C13]
 {
     proof {
         if exists|j: int| #![trigger pair_prefix(rtext, qtext, j)] #![trigger pair_equal(rtext, qtext, j)] pair_prefix(rtext, qtext, j) || pair_equal(rtext, qtext, j) {
@@ -133,6 +155,9 @@ pub fn text_match(rtext: &TextRef, qtext: &TextRef, tls: &mut Tls, tlsm: &mut Tl
                         qtext.words@.len() == 0 ==> (forall|k: int| 0 <= k < rmatches@.len() ==> rmatches@[k] is None),
                         __i0 == 0 ==> (forall|k: int| 0 <= k < qmatches@.len() ==> qmatches@[k] is None),
                         __i0 >= 1 && need ==> some_slot(rmatches@), need == (exists|j: int| #[trigger] must_pair(rtext, qtext, j)),
+                        __i0 >= 1 && need ==> qmatches@[0] is Some, // [C13]
+                        __i0 == 0 ==> (forall|k: int| 0 <= k < rmatches@.len() ==> rmatches@[k] is None),
+                        fin_inv(rmatches@, qmatches@, qtext), // [C13]
                     decreases __end0 - __i0,
                     {
                         let qword = &qtext.words[__i0];
@@ -142,7 +167,7 @@ pub fn text_match(rtext: &TextRef, qtext: &TextRef, tls: &mut Tls, tlsm: &mut Tl
                         }
                         let qword = qword.to_view(qtext);
                         let ghost qk = __i0 as int - 1;
-                        let ghost rm0 = rmatches@;
+                        let ghost rm0 = rmatches@; let ghost qm0 = qmatches@;
                         proof { assert(view_of(&qword, qtext, qk)); }
                         let mut candidate: Option<(WordMatch, WordMatch)> = None;
                         let __end1 = rtext.words.len();
@@ -151,10 +176,15 @@ pub fn text_match(rtext: &TextRef, qtext: &TextRef, tls: &mut Tls, tlsm: &mut Tl
                             invariant text_wf(rtext), text_wf(qtext), text_small(rtext), text_small(qtext), tls.DAMLEV.wf(),
                                 slots_ok(rmatches@, rtext), slots_ok(qmatches@, qtext), __end0 == qtext.words@.len(), __i0 <= __end0, 1 <= __i0,
                                 __end1 == rtext.words@.len(), __i1 <= __end1, qk == __i0 - 1, view_of(&qword, qtext, qk), cand_ok(candidate, rtext, qtext),
-                                mono_slots(rm0, rmatches@),
+                                mono_slots(rm0, rmatches@), mono_slots(qm0, qmatches@),
+                                fin_inv(rmatches@, qmatches@, qtext), cand_fin(candidate, &qword), // [C13]
+                                qk == 0 ==> candidate is Some || qmatches@[0] is Some || (forall|j: int| 0 <= j < __i1 ==> !#[trigger] must_pair(rtext, qtext, j)), // [C13]
+                                // while the first query word is being matched a record slot is only filled together with that word's slot
+                                qk == 0 && some_slot(rmatches@) ==> qmatches@[0] is Some, // [C13]
                                 // TM-some: for the first query word, every record word seen so far that must match has left a candidate or a filled slot
                                 qk == 0 ==> candidate is Some || some_slot(rmatches@) || (forall|j: int| 0 <= j < __i1 ==> !#[trigger] must_pair(rtext, qtext, j)),
                             ensures qk == 0 ==> candidate is Some || some_slot(rmatches@) || (forall|j: int| 0 <= j < __end1 ==> !#[trigger] must_pair(rtext, qtext, j)),
+                                qk == 0 ==> candidate is Some || qmatches@[0] is Some || (forall|j: int| 0 <= j < __end1 ==> !#[trigger] must_pair(rtext, qtext, j)), // [C13]
                             decreases __end1 - __i1,
                         {
                             let rword = &rtext.words[__i1];
@@ -165,7 +195,7 @@ pub fn text_match(rtext: &TextRef, qtext: &TextRef, tls: &mut Tls, tlsm: &mut Tl
                             }
                             let rword = rword.to_view(rtext);
                             proof { assert(view_of(&rword, rtext, __i1 as int - 1)); }
-                            let ghost cand0 = candidate; let ghost rm1 = rmatches@;
+                            let ghost cand0 = candidate; let ghost rm1 = rmatches@; let ghost qm1 = qmatches@;
                             proof { if qk == 0 && must_pair(rtext, qtext, __i1 as int - 1) { assert(must_match(&rword, &qword)); } }
                             let mut stop = false;
                             let __r2 = text_match__c1(rtext, qtext, &rword, &qword, rmatches, qmatches, &mut candidate, &mut stop, tls);
@@ -180,6 +210,12 @@ pub fn text_match(rtext: &TextRef, qtext: &TextRef, tls: &mut Tls, tlsm: &mut Tl
                                         assert(cand0 is None);
                                         assert forall|k: int| 0 <= k < rm1.len() implies rm1[k] is None by { if rm1[k] is Some { assert(rmatches@[k] is Some); } }
                                     }
+                                    // TM-first
+                                    if __r2 is Some || __r3 is Some { assert(qmatches@[0] is Some); }
+                                    else {
+                                        if qm1[0] is Some { assert(qmatches@[0] is Some); }
+                                        assert(rmatches@ == rm1);
+                                    }
                                 }
                             }
                             if stop {
@@ -187,11 +223,20 @@ pub fn text_match(rtext: &TextRef, qtext: &TextRef, tls: &mut Tls, tlsm: &mut Tl
                             }
                         }
                         if let Some((rmatch, qmatch)) = candidate {
+                            let ghost rm2 = rmatches@; let ghost qm2 = qmatches@;
                             let roffset = rmatch.offset;
                             let qoffset = qmatch.offset;
                             rmatches[roffset] = Some(rmatch);
                             proof { assert(rmatches@[roffset as int] is Some); }
                             qmatches[qoffset] = Some(qmatch);
+                            proof {
+                                assert(qoffset == qk);
+                                assert(mono_slots(qm2, qmatches@));
+                                assert forall|j: int| #[trigger] unfin_at(rmatches@, j) implies unfin_slot(qmatches@, qtext) by {
+                                    if j == roffset { assert(!qword.fin); assert(qmatches@[qk] is Some && !qtext.words@[qk].fin); }
+                                    else { assert(unfin_at(rm2, j)); lemma_fin_keep(rm2, qm2, qmatches@, qtext); }
+                                }
+                            }
                         }
                         proof {
                             if need {
@@ -201,20 +246,24 @@ pub fn text_match(rtext: &TextRef, qtext: &TextRef, tls: &mut Tls, tlsm: &mut Tl
                                 } else {
                                     let k = choose|k: int| 0 <= k < rm0.len() && #[trigger] rm0[k] is Some;
                                     assert(rmatches@[k] is Some);
+                                    assert(qm0[0] is Some);
                                 }
+                                assert(qmatches@[0] is Some);
                             }
                         }
                     }
+                    let ghost rmS = rmatches@; let ghost qmS = qmatches@;
                     let mut __out5 = Vec::new();
                     let __end5 = rmatches.len();
                     for __i5 in 0..__end5
-                        invariant __end5 == rmatches@.len(), slots_ok(rmatches@, rtext), text_wf(rtext),
+                        invariant __end5 == rmatches@.len(), slots_ok(rmatches@, rtext), text_wf(rtext), rmatches@ == rmS,
                             qtext.words@.len() == 0 ==> (forall|k: int| 0 <= k < rmatches@.len() ==> rmatches@[k] is None),
                             qtext.words@.len() == 0 ==> __out5@.len() == 0,
                             (exists|k: int| 0 <= k < __i5 && #[trigger] rmatches@[k] is Some) ==> __out5@.len() >= 1,
                             __out5@.len() <= __i5,
                             forall|j: int| 0 <= j < __out5@.len() ==> match_for_text(#[trigger] __out5@[j], rtext) && match_ok2(__out5@[j]) && __out5@[j].offset < __i5,
                             forall|a: int, b: int| 0 <= a < b < __out5@.len() ==> (#[trigger] __out5@[a]).offset < (#[trigger] __out5@[b]).offset,
+                            forall|j: int| 0 <= j < __out5@.len() ==> rmS[(#[trigger] __out5@[j]).offset as int] == Some(__out5@[j]), // [C13]
                     {
                         match &rmatches[__i5] {
                             Some(__m) => {
@@ -229,21 +278,41 @@ pub fn text_match(rtext: &TextRef, qtext: &TextRef, tls: &mut Tls, tlsm: &mut Tl
                     let mut __out6 = Vec::new();
                     let __end6 = qmatches.len();
                     for __i6 in 0..__end6
-                        invariant __end6 == qmatches@.len(), slots_ok(qmatches@, qtext), text_wf(qtext),
+                        invariant __end6 == qmatches@.len(), slots_ok(qmatches@, qtext), text_wf(qtext), qmatches@ == qmS,
+                            forall|j: int| 0 <= j < rmatches2@.len() ==> rmS[(#[trigger] rmatches2@[j]).offset as int] == Some(rmatches2@[j]), // [C13]
                             matches_for_text(rmatches2@, rtext), matches_ok(rmatches2@), qtext.words@.len() == 0 ==> rmatches2@.len() == 0,
                             __out6@.len() <= __i6,
                             forall|j: int| 0 <= j < __out6@.len() ==> match_for_text(#[trigger] __out6@[j], qtext) && match_ok2(__out6@[j]) && __out6@[j].offset < __i6,
                             forall|a: int, b: int| 0 <= a < b < __out6@.len() ==> (#[trigger] __out6@[a]).offset < (#[trigger] __out6@[b]).offset,
+                            forall|k: int| 0 <= k < __i6 && #[trigger] qmS[k] is Some ==> exists|b: int| 0 <= b < __out6@.len() && (#[trigger] __out6@[b]).offset == k, // [C13]
                     {
                         match &qmatches[__i6] {
                             Some(__m) => {
+                                let ghost o6 = __out6@;
                                 __out6.push(__m.clone());
+                                proof {
+                                    assert forall|k: int| 0 <= k < __i6 + 1 && #[trigger] qmS[k] is Some implies exists|b: int| 0 <= b < __out6@.len() && (#[trigger] __out6@[b]).offset == k by {
+                                        if k == __i6 { assert(__out6@[o6.len() as int].offset == k); }
+                                        else { let b = choose|b: int| 0 <= b < o6.len() && (#[trigger] o6[b]).offset == k; assert(__out6@[b] == o6[b]); }
+                                    }
+                                }
                             }
                             None => {}
                         }
                     }
                     qmatches.clear();
-                    proof { lemma_collected_ok(__out6@, qtext); }
+                    proof {
+                        lemma_collected_ok(__out6@, qtext);
+                        // TM-first
+                        if need { assert(qmS[0] is Some); assert(first_matched(__out6@)); }
+                        // TM-fin
+                        assert forall|a: int| 0 <= a < rmatches2@.len() && !(#[trigger] rmatches2@[a]).fin implies unfin_match(qtext, __out6@) by {
+                            assert(unfin_at(rmS, rmatches2@[a].offset as int));
+                            let k = choose|k: int| 0 <= k < qmS.len() && k < qtext.words@.len() && #[trigger] qmS[k] is Some && !qtext.words@[k].fin;
+                            let b = choose|b: int| 0 <= b < __out6@.len() && (#[trigger] __out6@[b]).offset == k;
+                            assert(!qtext.words@[__out6@[b].offset as int].fin);
+                        }
+                    }
                     let qmatches2 = __out6;
                     (rmatches2, qmatches2)
                 }
@@ -260,6 +329,10 @@ fn text_match__c1(rtext: &TextRef, qtext: &TextRef, rword: &WordView, qword: &Wo
         // TM-some: slots only fill up; a success fills a record slot; a failure changes nothing
         mono_slots(old(rmatches)@, final(rmatches)@), ret is Some ==> some_slot(final(rmatches)@), // [C03 C04 C13]
         ret is None ==> *final(candidate) == *old(candidate) && final(rmatches)@ == old(rmatches)@ && *final(stop) == *old(stop), // [C03 C04 C13]
+        // TM-first / TM-fin: query slots only fill up; a success fills the slot of the current query word; unfinished record matches stay covered
+        mono_slots(old(qmatches)@, final(qmatches)@), ret is Some ==> final(qmatches)@[qword.offset as int] is Some, ret is None ==> final(qmatches)@ == old(qmatches)@, // [C13]
+        fin_inv(old(rmatches)@, old(qmatches)@, qtext) ==> fin_inv(final(rmatches)@, final(qmatches)@, qtext), // [C13]
+        cand_fin(*old(candidate), qword) ==> cand_fin(*final(candidate), qword), // [C13]
 {
     let rnext = rtext.words.get(rword.offset + 1)?.to_view(rtext);
     proof {
@@ -283,12 +356,25 @@ fn text_match__c1(rtext: &TextRef, qtext: &TextRef, rword: &WordView, qword: &Wo
         lemma_wf_for_slot(rmatch2, &rnext, rtext, k + 1);
         lemma_wf_for_slot(qmatch, qword, qtext, qword.offset as int);
     }
+    let ghost rmA = rmatches@; let ghost qmA = qmatches@;
     let roffset1 = rmatch1.offset;
     let roffset2 = rmatch2.offset;
     let qoffset = qmatch.offset;
     rmatches[roffset1] = Some(rmatch1);
     rmatches[roffset2] = Some(rmatch2);
     qmatches[qoffset] = Some(qmatch);
+    proof {
+        assert(mono_slots(qmA, qmatches@));
+        if fin_inv(rmA, qmA, qtext) {
+            assert forall|j: int| #[trigger] unfin_at(rmatches@, j) implies unfin_slot(qmatches@, qtext) by {
+                if j == roffset1 || j == roffset2 {
+                    // an unfinished part means the query word is unfinished; its slot has just been filled
+                    assert(!qword.fin);
+                    assert(qmatches@[qoffset as int] is Some && !qtext.words@[qoffset as int].fin);
+                } else { assert(unfin_at(rmA, j)); lemma_fin_keep(rmA, qmA, qmatches@, qtext); }
+            }
+        }
+    }
     candidate.take();
     *stop = true;
     Some(())
@@ -301,6 +387,10 @@ fn text_match__c2(rtext: &TextRef, qtext: &TextRef, rword: &WordView, qword: &Wo
     ensures final(tls).DAMLEV.wf(), slots_ok(final(rmatches)@, rtext), slots_ok(final(qmatches)@, qtext), cand_ok(*final(candidate), rtext, qtext),
         mono_slots(old(rmatches)@, final(rmatches)@), ret is Some ==> some_slot(final(rmatches)@), // [C03 C04 C13]
         ret is None ==> *final(candidate) == *old(candidate) && final(rmatches)@ == old(rmatches)@ && *final(stop) == *old(stop), // [C03 C04 C13]
+        // TM-first / TM-fin: query slots only fill up; a success fills the slot of the current query word; unfinished record matches stay covered
+        mono_slots(old(qmatches)@, final(qmatches)@), ret is Some ==> final(qmatches)@[qword.offset as int] is Some, ret is None ==> final(qmatches)@ == old(qmatches)@, // [C13]
+        fin_inv(old(rmatches)@, old(qmatches)@, qtext) ==> fin_inv(final(rmatches)@, final(qmatches)@, qtext), // [C13]
+        cand_fin(*old(candidate), qword) ==> cand_fin(*final(candidate), qword), // [C13]
 {
     let qnext = qtext.words.get(qword.offset + 1)?.to_view(qtext);
     proof {
@@ -324,12 +414,25 @@ fn text_match__c2(rtext: &TextRef, qtext: &TextRef, rword: &WordView, qword: &Wo
         lemma_wf_for_slot(qmatch2, &qnext, qtext, k + 1);
         lemma_wf_for_slot(rmatch, rword, rtext, rword.offset as int);
     }
+    let ghost rmA = rmatches@; let ghost qmA = qmatches@;
     let roffset = rmatch.offset;
     let qoffset1 = qmatch1.offset;
     let qoffset2 = qmatch2.offset;
     rmatches[roffset] = Some(rmatch);
     qmatches[qoffset1] = Some(qmatch1);
     qmatches[qoffset2] = Some(qmatch2);
+    proof {
+        assert(mono_slots(qmA, qmatches@));
+        if fin_inv(rmA, qmA, qtext) {
+            assert forall|j: int| #[trigger] unfin_at(rmatches@, j) implies unfin_slot(qmatches@, qtext) by {
+                if j == roffset {
+                    // the joined query word is unfinished exactly when its second word is; that word's slot has just been filled
+                    assert(!qnext.fin);
+                    assert(qmatches@[qoffset2 as int] is Some && !qtext.words@[qoffset2 as int].fin);
+                } else { assert(unfin_at(rmA, j)); lemma_fin_keep(rmA, qmA, qmatches@, qtext); }
+            }
+        }
+    }
     candidate.take();
     *stop = true;
     Some(())
@@ -345,6 +448,7 @@ fn text_match__c3(rtext: &TextRef, qtext: &TextRef, rword: &WordView, qword: &Wo
         *old(candidate) is Some ==> *final(candidate) is Some, // [C03 C04 C13]
         must_match(rword, qword) ==> *final(candidate) is Some, // [C03 C04 C13]
         *final(stop) && !*old(stop) ==> *final(candidate) is Some, // [C03 C04 C13]
+        cand_fin(*old(candidate), qword) ==> cand_fin(*final(candidate), qword), // [C13]
 {
     proof { lemma_view_wfs(rword, rtext, rword.offset as int); lemma_view_wfs(qword, qtext, qword.offset as int); }
     let (rmatch2, qmatch2) = word_match(&rword, &qword, tls)?;
